@@ -83,7 +83,10 @@ def build_case(r, idx):
     bound = {}          # name -> value
     n_out = r.randrange(0, 7)
     fresh = iter(f"v{i}" for i in range(100))
-    out_names = [f"o{i}" for i in range(n_out)]
+    # declaration order is not alphabetical order (and not length order): a sorted map on the way out would show
+    name_pool = ["total", "n", "mean", "Big", "_z", "alpha", "o1", "o10", "o2", "Zeta", "b", "a"]
+    r.shuffle(name_pool)
+    out_names = name_pool[:n_out]
 
     def value_expr():
         """(source, value) with a value known by construction"""
